@@ -580,9 +580,12 @@ class _CUR(GreedySelector):
         initial importance.
         """
         for c in self.selected_idx_:
+            # the residual of an already selected item is round-off, whose size scales
+            # with the data: compare it to the norm of the item itself
             if self.recompute_every != 0 and (
                 np.linalg.norm(np.take(self.X_current_, [c], axis=self._axis))
                 > self.tolerance
+                * max(1.0, np.linalg.norm(np.take(X, [c], axis=self._axis)))
             ):
                 self._orthogonalize(last_selected=c)
 
@@ -762,9 +765,12 @@ class _PCovCUR(GreedySelector):
         their initial importance.
         """
         for c in self.selected_idx_:
+            # the residual of an already selected item is round-off, whose size scales
+            # with the data: compare it to the norm of the item itself
             if self.recompute_every != 0 and (
                 np.linalg.norm(np.take(self.X_current_, [c], axis=self._axis))
                 > self.tolerance
+                * max(1.0, np.linalg.norm(np.take(X, [c], axis=self._axis)))
             ):
                 self._orthogonalize(last_selected=c)
 
